@@ -300,6 +300,9 @@ func TestHarness(t *testing.T) {
 	flushLine := os.Getenv("VERIF_FLUSH") == "1"
 	finish := func(code int) {
 		out.Flush()
+		if code == 0 && os.Getenv("VERIF_COVER") == "1" {
+			return // statement-coverage pass of bin/check: let the testing package write the cover profile
+		}
 		os.Exit(code) // skip the testing package's PASS/ok chatter on stdout
 	}
 	switch args[0] {
